@@ -153,6 +153,23 @@ def c_three_way(ctx, args):
 CHECKS = {'three_way': c_three_way}
 
 
+def _borrow():
+    """the torch-side checks written for the individual properties are part of what 'a faithful port' means: they run here too (same functions, torch backend)"""
+    import importlib
+    out = {}
+    for mod, names in (('C07', ['overlap', 'get_prob', 'expect_poly']), ('C08', ['ent_dense', 'ent_forms']), ('C09', ['torch_prog']), ('C10', ['torch_history']), ('C12', ['duality_corr']),
+                       ('C15', ['torch_expr', 'reduce_large']), ('C16', ['chi2_product', 'maps_states']), ('C17', ['torch_copy', 'ctor_fresh']), ('C18', ['diag_pauli']),
+                       ('C20', ['index', 'poly_index', 'roundtrip', 'formats'])):
+        m = importlib.import_module('props.' + mod)
+        for nme in names:
+            if nme in m.CHECKS:
+                out['%s.%s' % (mod, nme)] = m.CHECKS[nme]
+    return out
+
+
+CHECKS.update(_borrow())
+
+
 def shared_surface():
     import pyclifford, torchclifford
     from pyclifford import utils as U1
@@ -179,7 +196,7 @@ def run(ctx):
     skipped = []
     for op in both:
         n_ok = 0
-        for it in range(per):
+        for it in range(per * 8 if op in ('entropy', 'entropy_of', 'z2rank') else per):      # rank-dependent kernels fail on few inputs only: many more cases
             n = rng.randint(1, 5)
             a = arggen(ctx, rng, op, n)
             if a is None:
@@ -190,3 +207,55 @@ def run(ctx):
             n_ok += 1
         ctx.res.count('op_' + op, n_ok)
     ctx.res.notes['adapters_without_generator'] = sorted(set(skipped))
+    # ---- the torch-side checks of the individual properties (see _borrow)
+    from props.C09 import rprog
+    for it in range(int(12 * B)):
+        n = rng.randint(1, 3)
+        t = gen.rtableau(rng, ctx.model, n, r=0)
+        u = gen.rtableau(rng, ctx.model, n)
+        do(ctx, 'C07.overlap', ['torch', t, u], nontrivial=('b07o', it))
+        do(ctx, 'C07.get_prob', ['torch', t], nontrivial=('b07g', it))
+        terms = [[gen.rstr(rng, n), rng.randint(0, 3), [rng.randint(-3, 3), rng.randint(-3, 3)]] for _ in range(rng.randint(1, 4))]
+        do(ctx, 'C07.expect_poly', [u, terms, rng.choice(['pauli', 'poly', 'poly']), 'torch'], nontrivial=('b07p', it))
+        m = gen.rmap(rng, ctx.model, rng.randint(1, 4))
+        do(ctx, 'C12.duality_corr', ['torch', m, rng.randint(0, len(m) // 2)], nontrivial=('b12', it))
+        N = rng.randint(1, 4)
+        prog = rprog(rng, ctx.model, N, rng.randint(1, 5))
+        do(ctx, 'C09.torch_prog', [N, prog, gen.rplist(rng, N, 3), rng.choice([0, 1, 2]), rng.choice(['orig', 'copy', 'halves', 'copy_extend']), rng.choice(['forward', 'backward'])], nontrivial=('b09', it))
+        prog = [[0, gen.rgate(rng, ctx.model, N, kinds=('gen', 'fwd', 'fwd', 'bwd', 'both', 'named'))] for _ in range(rng.randint(1, 4))]
+        do(ctx, 'C10.torch_history', [N, prog, gen.rplist(rng, N, 3), rng.choice([0, 0, 1, 2]), rng.choice(['B', 'BF', 'BBF', 'FBBF', 'BFFB'])], nontrivial=('b10', it))
+        for kind in ['Pauli', 'PauliList', 'CliffordMap', 'StabilizerState', 'PauliPolynomial']:
+            do(ctx, 'C17.torch_copy', [kind, rng.randint(1, 3), rng.randrange(10 ** 6)])
+        for what in ['rotation_map', 'identity_map', 'zero_state', 'mixed_state', 'stabilizer_state', 'rotation_gate', 'pauli']:
+            do(ctx, 'C17.ctor_fresh', ['torch', what, rng.randint(1, 3), rng.randrange(10 ** 6)])
+    from props.C15 import rexpr, has
+    for it in range(int(40 * B)):
+        n = rng.randint(1, 3)
+        e = rexpr(rng, n, rng.randint(1, 3), ['pauli', 'poly', 'poly'])
+        do(ctx, 'C15.torch_expr', [n, e], nontrivial=('b15', it) if has(e, (4, 5, 6)) else None)
+    for it in range(int(20 * B)):
+        n = rng.choice([6, 13, 14, 16, 20])
+        site = lambda q, k: [(k >> 1) & 1 if j == 2 * q else (k & 1 if j == 2 * q + 1 else 0) for j in range(2 * n)]
+        terms = []
+        for _ in range(rng.randint(2, 6)):
+            g = site(rng.choice([0, 0, 1]), rng.choice([1, 2, 3]))
+            if rng.random() < 0.6:
+                g = [a | b for a, b in zip(g, site(rng.choice([n - 1, n - 2]), rng.choice([1, 2, 3])))]
+            terms.append([g, rng.choice([0, 0, 2, 1]), rng.choice([1.0, -1.0, 0.5, 2.0])])
+        do(ctx, 'C15.reduce_large', ['torch', n, terms, rng.choice(['reduce', 'add'])], nontrivial=('b15r', it))
+    for it in range(int(40 * B)):
+        n = rng.randint(1, 3)
+        L = rng.randint(1, 5)
+        terms = [[gen.rstr(rng, n), rng.randint(0, 3), [rng.choice([1, -1, 0.5, 2]), rng.choice([0, 0, 1, -0.5])]] for _ in range(L)]
+        kind = rng.choice(['slice', 'mask', 'idx'])
+        ix = {'slice': [rng.choice([None, 0, 1, -1, -2]), rng.choice([None, 1, 2, L, -1]), rng.choice([None, 1, 2])], 'mask': [rng.randint(0, 1) for _ in range(L)],
+              'idx': [rng.randrange(L) for _ in range(rng.randint(1, 3))]}[kind]
+        do(ctx, 'C20.poly_index', ['torch', terms, kind, ix], nontrivial=('b20', it))
+    do(ctx, 'C16.chi2_product', ['torch', 14400 if ctx.tier == 'quick' else 144000, 15], nontrivial='b16')
+    # torch entropy on mixed and pure states with regions of every size, against the dense von Neumann entropy (the real-rank defect of torch z2rank is a known finding)
+    for it in range(int(250 * B)):
+        n = rng.randint(2, 5)
+        t = gen.rtableau(rng, ctx.model, n, r=rng.randint(1, n - 1) if rng.random() < 0.7 else None)
+        region = [q for q in range(n) if rng.random() < 0.5] or [0]
+        if 'C08.ent_dense' in CHECKS:
+            do(ctx, 'C08.ent_dense', ['torch', t, [1 if q in region else 0 for q in range(n)]], nontrivial=('b08', it))
